@@ -35,6 +35,13 @@ class Tok:
             raise TypeError("len() of scalar token")
         return self.shape[0]
 
+    @property
+    def size(self):
+        n = 1
+        for k in self.shape:
+            n *= k
+        return n
+
 
 def _conc_int(x):
     if isinstance(x, (SInt, SBool)):
